@@ -190,11 +190,20 @@ pub fn get_solidity_version_from_source_unit(source_unit: SourceUnit) -> Option<
                 continue;
             }
 
-            let minor_major_patch_version =
+            let mut minor_major_patch_version: Vec<i32> = vec![];
+            for component in
                 get_solidity_major_minor_patch_version(&solidity_version_literal.string)
-                    .iter()
-                    .map(|f| f.parse::<i32>().unwrap())
-                    .collect::<Vec<i32>>();
+            {
+                match component.parse::<i32>() {
+                    Ok(number) => minor_major_patch_version.push(number),
+                    //a component that is empty (`0.8..4`) or does not fit: no usable version
+                    Err(_) => return None,
+                }
+            }
+
+            if minor_major_patch_version.len() < 3 {
+                return None;
+            }
 
             return Some((
                 minor_major_patch_version[0],
